@@ -202,6 +202,30 @@ def main():
                 rec["value"] = "%s: %s" % (type(raised).__name__, str(raised)[:200])
                 rec["raised"] = True
             del res
+            # the same OBJECTS with other values: a caller who updates its matrix in place and asks again must get what
+            # a fresh object with those values gives (clean baseline jobs only; ndarray arguments of equal shape / type)
+            if raised is None and job.get("byte") == -1 and not job["prior"] and not PR.writes(job["routine"]) \
+                    and not job["routine"].endswith("_twice"):
+                other = PR.make_args(job["routine"], (job["argset"] + 1) % PR.NSETS)
+                pairs = list(zip(args, other))
+                arrs = [(a, o) for a, o in pairs if isinstance(a, np.ndarray)]
+                same_kind = len(args) == len(other) and all(
+                    (isinstance(a, np.ndarray) and isinstance(o, np.ndarray) and a.shape == o.shape and a.dtype == o.dtype
+                     and a.flags.writeable) or (not isinstance(a, np.ndarray) and digest(a, True) == digest(o, True))
+                    for a, o in pairs)
+                if same_kind and arrs and any(not np.array_equal(a, o) for a, o in arrs):
+                    keep = [a.copy() for a, _ in arrs]
+                    try:
+                        for a, o in arrs:
+                            np.copyto(a, o)
+                        again = digest(fn(*args))
+                        fresh = digest(fn(*PR.make_args(job["routine"], (job["argset"] + 1) % PR.NSETS)))
+                        rec["reuse_same"] = again == fresh
+                    except Exception:
+                        pass              # the other argument set is not valid for this routine in this form
+                    finally:
+                        for (a, _), k_ in zip(arrs, keep):
+                            np.copyto(a, k_)
             after = [digest(a, True) for a in args]
             # every argument except the documented out= positions must be bit-identical after the call
             may_write = PR.writes(job["routine"])
